@@ -71,6 +71,3 @@ func (in *Inst) modPathLocs(mi ModItem, pre *SpecEnv, fieldAt map[string][]strin
 		}
 	}
 }
-
-
-
